@@ -90,4 +90,7 @@ class WFQ(Scheduler):
             f"finish_time {self.finish_times[class_id]}"
         )
 
-        self.store.put(PriorityItem((self.finish_times[class_id], now), packet))
+        # packets_received breaks ties in arrival order: a zero-size packet gets the stamp of its predecessor
+        self.store.put(
+            PriorityItem((self.finish_times[class_id], now, self.packets_received), packet)
+        )
